@@ -7,6 +7,21 @@ COMMON_ASSUMPTIONS = [
 ]
 
 
+def asan_mt(name, scenario, **kw):
+    """E3: the same scenario on a multi-thread runtime (real clock) built with AddressSanitizer; only
+    timing-independent oracles run; a wall-clock watchdog firing is inconclusive."""
+    j = {"name": name, "engine": "asan", "scenario": scenario, "timeout_s": 1500, "crash_property": None}
+    j.update(kw)
+    return j
+
+
+def miri(name, scenario, episodes, **kw):
+    """E4: the same dvsim binary under Miri (UB / aliasing / leak checking while the ordinary oracles run)."""
+    j = {"name": name, "engine": "miri", "scenario": scenario, "episodes": episodes, "timeout_s": 3000, "require_nontrivial": False}
+    j.update(kw)
+    return j
+
+
 def sim(name, scenario, **kw):
     j = {"name": name, "engine": "sim", "scenario": scenario}
     j.update(kw)
@@ -27,6 +42,7 @@ def c07_jobs(tier):
     jobs = [sim("c07-direct", "c07", require_counters=["mailbox_full_observations"])]
     if tier == "thorough":
         jobs.append(sim("c07-h2", "c07", transport="h2", require_counters=["mailbox_full_observations"]))
+        jobs.append(asan_mt("c07-asan-mt", "c07", crash_property="C07"))
     return jobs
 
 
@@ -43,20 +59,37 @@ def c14_jobs(tier):
 
 
 def c02_jobs(tier):
-    return [sim("c02-seq", "c02", require_counters=["effective_acks", "stale_unknown_repeated_acks", "deadline_crossings_after_ack"])]
+    jobs = [sim("c02-seq", "c02", require_counters=["effective_acks", "stale_unknown_repeated_acks", "deadline_crossings_after_ack"]),
+            conc("c02-conc", "c03", params={"n": 1500 if tier == "quick" else 20000}, require_counters=["certainly_effective_acks"])]
+    if tier == "thorough":
+        jobs.append(miri("c02-miri", "c02", 48))
+        jobs.append(conc("c02-conc-h2", "c03", transport="h2", params={"n": 4000}))
+    return jobs
 
 
 def c04_jobs(tier):
-    return [sim("c04-phases", "c04", require_counters=["expiry_measured_by_blocked_pull", "expiry_measured_by_stream", "probe_before_deadline_empty", "probe_after_slack_returned", "second_expiry_observed"])]
+    extra = []
+    if tier == "thorough":
+        extra = [miri("c04-miri", "c04", 14), sim("c04-phases-h2", "c04", transport="h2", episodes=3300)]
+    return extra + [sim("c04-phases", "c04", require_counters=["expiry_measured_by_blocked_pull", "expiry_measured_by_stream", "probe_before_deadline_empty", "probe_after_slack_returned", "second_expiry_observed"])]
 
 
 def c05_jobs(tier):
-    return [sim("c05-grid", "c05", require_counters=["modifications", "nacks", "parked_consumer_woken_by_nack", "probe.new-1ms.returned", "probe.new+slack.returned"]),
+    jobs = [sim("c05-grid", "c05", require_counters=["modifications", "nacks", "parked_consumer_woken_by_nack", "probe.new-1ms.returned", "probe.new+slack.returned"]),
             sim("c05-alphabet", "c02", params={"random": 0}, require_nontrivial=False)]
+    if tier == "thorough":
+        jobs.append(miri("c05-miri", "c05", 32))
+        jobs.append(sim("c05-grid-h2", "c05", transport="h2", episodes=4000))
+    return jobs
 
 
 def c17_jobs(tier):
-    return [sim("c17-hostile", "c17", require_counters=["hostile_requests_answered"])]
+    jobs = [sim("c17-hostile", "c17", require_counters=["hostile_requests_answered"])]
+    if tier == "thorough":
+        jobs.append(sim("c17-hostile-h2", "c17", transport="h2", episodes=8000))
+        jobs.append(asan_mt("c17-asan-mt", "c17", crash_property="C17"))
+        jobs.append(miri("c17-miri", "c17", 16))
+    return jobs
 
 
 def c13_jobs(tier):
@@ -76,8 +109,10 @@ def conc(name, profile, **kw):
 def c01_jobs(tier):
     jobs = [conc("c01-conc", "c01", require_counters=["obligations", "redeliveries", "mailbox_full_observations"]),
             sim("c01-seq-cycles", "c02", params={"len": 3}, require_nontrivial=False)]
+    jobs.append(sim("c01-volume", "c15", require_nontrivial=False))
     if tier == "thorough":
         jobs.append(conc("c01-conc-h2", "c01", transport="h2"))
+        jobs.append(asan_mt("c01-asan-mt", "conc", params={"profile": "c01"}, crash_property="C01"))
     return jobs
 
 
@@ -86,6 +121,7 @@ def c03_jobs(tier):
             conc("c03-conc-c01mix", "c01", params={"n": 1500 if tier == "quick" else 20000})]
     if tier == "thorough":
         jobs.append(conc("c03-conc-h2", "c03", transport="h2"))
+        jobs.append(asan_mt("c03-asan-mt", "conc", params={"profile": "c03"}, crash_property="C03"))
     return jobs
 
 
@@ -115,6 +151,7 @@ def c10_jobs(tier):
             sim("c10-seq-status", "c11", require_nontrivial=False)]
     if tier == "thorough":
         jobs.append(sim("c10-wgl-h2", "c10", transport="h2"))
+        jobs.append(asan_mt("c10-asan-mt", "c10", crash_property="C10"))
     return jobs
 
 
@@ -230,6 +267,10 @@ PROPERTIES = {
 NOT_YET = {}
 
 ENGINES = [
+    {"name": "dvsim-asan-mt", "path": "/verif/harness (bin dvsim, nightly -Zsanitizer=address, multi-thread runtime)", "serves_properties": ["C01", "C03", "C07", "C10", "C17"],
+     "kind_free_text": "the CONC / burst / hostile-input workloads on a real-time multi-thread runtime under AddressSanitizer + LeakSanitizer; timing-independent oracles only; not replayable"},
+    {"name": "dvsim-miri", "path": "/verif/harness (bin dvsim under cargo +nightly miri run)", "serves_properties": ["C02", "C04", "C05", "C17"],
+     "kind_free_text": "small SEQ episodes interpreted by Miri: UB checks on the unsafe sites (take_expired's unwrap_unchecked, pin projections), aliasing, leaks, while the reference-model oracle runs"},
     {"name": "flowcheck", "path": "/verif/harness (bin flowcheck)", "serves_properties": ["C19"],
      "kind_free_text": "native std::thread stress with a trace oracle; the same binary under `cargo +nightly miri run` with -Zmiri-many-seeds"},
     {"name": "dvsim", "path": "/verif/harness (bin dvsim)", "serves_properties": sorted(PROPERTIES.keys()),
